@@ -148,16 +148,30 @@ func blk(help plush.HelperContext) (template.HTML, error) {
 
 // chains of n conditions with every truth assignment; conditions record their evaluation
 func Chain() {
-	maxN := 2 + 2*vrt.Tier()
+	maxN := 3 + vrt.Tier()
 	n := vrt.IntRange(1, maxN)
 	rec := &recorder{}
+	// a condition is a recording call c(i) with an arbitrary truth value, or an
+	// unknown identifier (falsy, nothing to record)
+	unknown := make([]bool, n)
 	for i := 0; i < n; i++ {
-		rec.vals = append(rec.vals, vrt.Bool())
+		if vrt.Choice(3) == 0 {
+			unknown[i] = true
+			rec.vals = append(rec.vals, false)
+		} else {
+			rec.vals = append(rec.vals, vrt.Bool())
+		}
+	}
+	cond := func(i int) string {
+		if unknown[i] {
+			return "nope" + strconv.Itoa(i)
+		}
+		return "c(" + strconv.Itoa(i) + ")"
 	}
 	hasElse := vrt.Bool()
-	chain := "<%= if (c(0)) { %>B0<% }"
+	chain := "<%= if (" + cond(0) + ") { %>B0<% }"
 	for i := 1; i < n; i++ {
-		chain += " else if (c(" + strconv.Itoa(i) + ")) { %>B" + strconv.Itoa(i) + "<% }"
+		chain += " else if (" + cond(i) + ") { %>B" + strconv.Itoa(i) + "<% }"
 	}
 	if hasElse {
 		chain += " else { %>E<% }"
@@ -195,13 +209,21 @@ func Chain() {
 	}
 	vrt.Assert(err == nil, "a chain renders")
 	vrt.Assert(got == want, "exactly the block of the first truthy condition is rendered")
-	evaluated := n
+	last := n - 1
 	if first >= 0 {
-		evaluated = first + 1
+		last = first
 	}
-	vrt.Assert(len(rec.calls) == evaluated, "conditions after the first truthy one are not evaluated")
+	var wantCalls []int
+	for i := 0; i <= last; i++ {
+		if !unknown[i] {
+			wantCalls = append(wantCalls, i)
+		}
+	}
+	vrt.Assert(len(rec.calls) == len(wantCalls), "conditions after the first truthy one are not evaluated, all earlier ones are")
 	for i := 0; i < len(rec.calls); i++ {
-		vrt.Assert(rec.calls[i] == i, "conditions are evaluated in order, once each")
+		if i < len(wantCalls) {
+			vrt.Assert(rec.calls[i] == wantCalls[i], "conditions are evaluated in order, once each")
+		}
 	}
 	vrt.Cover("done")
 }
